@@ -71,6 +71,7 @@ type Exec struct {
 	stack       []*ssa.Function
 	tags        map[string]int
 	tagTypes    []types.Type
+	tagType     map[int]types.Type // type tag -> dynamic type (for devirtualising interface calls)
 	globConst   map[*ssa.Global]*Val
 	specDepth   int
 	TopRets     []edgeIn
@@ -80,6 +81,9 @@ type Exec struct {
 	Fixed       map[string]Val // unit inputs fixed to constants (clause `each`)
 	UsedLemmas  []string
 	Hidden      map[string]bool
+	HavocCallsC *Contract   // synthetic contract of `havoccalls` (nil when the unit does not use it)
+	Kept        []keptField // fields kept across abstracted calls
+	HavocSites  []havocSite
 }
 
 func NewExec(l *Loader, unit string) *Exec {
@@ -93,6 +97,7 @@ func (ex *Exec) assume(st *State, fact *Term) {
 	if f.IsTrue() {
 		return
 	}
+	f = closeOverSpecBound(f)
 	ex.Assume = append(ex.Assume, f)
 }
 
@@ -210,6 +215,7 @@ type fnExec struct {
 	loopEntry map[*Loop]*State
 	loopFrames map[*Loop]*loopFrame
 	loopHeadSt map[*Loop]*State
+	curCall    ssa.CallInstruction // the call being executed (for havoccalls bookkeeping)
 }
 
 func shortPkg(fn *ssa.Function) string {
@@ -488,7 +494,7 @@ func (fx *fnExec) havocLoop(lp *Loop, st *State, spec *LoopSpec) {
 				case *ssa.MapUpdate:
 					keys["map:"+typeName(in.Map.Type())] = true
 				case *ssa.Alloc:
-					if in.Heap {
+					if isHeapAlloc(in) {
 						keys[allocKey] = true
 						fx.keysOfObject(in.Type().(*types.Pointer).Elem(), keys)
 					}
@@ -643,7 +649,7 @@ func (fx *fnExec) keysOfElem(t types.Type, keys map[string]bool) {
 func (fx *fnExec) modTargets(addr ssa.Value, allocs map[*ssa.Alloc]bool, keys map[string]bool) {
 	switch a := addr.(type) {
 	case *ssa.Alloc:
-		if !a.Heap {
+		if !isHeapAlloc(a) {
 			allocs[a] = true
 		} else {
 			fx.keysOfObject(a.Type().(*types.Pointer).Elem(), keys)
@@ -652,18 +658,18 @@ func (fx *fnExec) modTargets(addr ssa.Value, allocs map[*ssa.Alloc]bool, keys ma
 		// find root
 		root := a.X
 		pt := root.Type().Underlying().(*types.Pointer).Elem()
-		if r, ok := root.(*ssa.Alloc); ok && !r.Heap {
+		if r, ok := root.(*ssa.Alloc); ok && !isHeapAlloc(r) {
 			allocs[r] = true
 			return
 		}
 		if inner, ok := root.(*ssa.FieldAddr); ok {
-			if ra := rootAlloc(inner); ra != nil && !ra.Heap {
+			if ra := rootAlloc(inner); ra != nil && !isHeapAlloc(ra) {
 				allocs[ra] = true
 				return
 			}
 		}
 		if inner, ok := root.(*ssa.IndexAddr); ok {
-			if ra := rootAllocV(inner); ra != nil && !ra.Heap {
+			if ra := rootAllocV(inner); ra != nil && !isHeapAlloc(ra) {
 				allocs[ra] = true
 				return
 			}
@@ -688,7 +694,7 @@ func (fx *fnExec) modTargets(addr ssa.Value, allocs map[*ssa.Alloc]bool, keys ma
 		// the struct may itself be an element of a slice
 		fx.keysOfElemMaybe(root, keys)
 	case *ssa.IndexAddr:
-		if ra := rootAllocV(a); ra != nil && !ra.Heap {
+		if ra := rootAllocV(a); ra != nil && !isHeapAlloc(ra) {
 			allocs[ra] = true
 			return
 		}
@@ -893,7 +899,14 @@ func (ex *Exec) tagOf(name string) int {
 }
 
 func (ex *Exec) typeTag(t types.Type) *Term {
-	return IntC(int64(ex.tagOf(typeName(t))))
+	tag := ex.tagOf(typeName(t))
+	if ex.tagType == nil {
+		ex.tagType = map[int]types.Type{}
+	}
+	if _, ok := ex.tagType[tag]; !ok {
+		ex.tagType[tag] = t
+	}
+	return IntC(int64(tag))
 }
 
 func toBV64(v Val) *Term {
